@@ -592,7 +592,7 @@ func (w *vfXWorld) op(st vfStep, ev map[string]any) {
 		ev["err"] = vfXErrClass(err)
 	}
 	if err == nil && op != nil {
-		if meta, evt, oerr := openMetadataEntry(acct().OpLog(), op.GetEntry(), w.s.getAccountGroup().Group()); oerr == nil {
+		if meta, evt, oerr := vfOpenMetadataEntry(acct().OpLog(), op.GetEntry(), w.s.getAccountGroup().Group()); oerr == nil {
 			ev["evk"] = vfXShortType(meta.Metadata.EventType)
 			if rs, ok := evt.(*protocoltypes.AccountContactRequestReferenceReset); ok {
 				w.seeds[fmt.Sprintf("%x", rs.PublicRendezvousSeed)] = len(w.seeds) + 1
